@@ -750,12 +750,18 @@ impl Network {
             return Ok(Some(record));
         } else if !collected_registers.is_empty() {
             info!("For record {pretty_key:?} task found multiple registers, merging them.");
-            let signed_register = collected_registers.iter().fold(collected_registers[0].clone(), |mut acc, x| {
-                if let Err(e) = acc.merge(x) {
-                    warn!("Ignoring forked register as we failed to merge conflicting registers at {}: {e}", x.address());
+            // Versions that do not merge (forked base registers) are not resolved here by keeping
+            // whichever was visited first: the caller gets the split with all versions.
+            let mut signed_register = collected_registers[0].clone();
+            for register in &collected_registers {
+                if let Err(e) = signed_register.merge(register) {
+                    warn!(
+                        "Failed to merge conflicting registers at {}: {e}",
+                        register.address()
+                    );
+                    return Ok(None);
                 }
-                acc
-            });
+            }
 
             let record_value = try_serialize_record(&signed_register, RecordKind::Register)
                 .map_err(|err| {
